@@ -307,6 +307,18 @@ pub fn run(cfg: &Cfg) {
             }
         }
     }
+    // payloads larger than any internal block / window / output buffer of the libraries (128 KiB blocks, 32 KiB
+    // streaming buffers, 64 KiB windows): incompressible, word-like text, and up to the frame limit, at a default level
+    // of every family (every level in the thorough tier)
+    for a in ["gzip:bal", "zlib:bal", "zstd:bal", "zstd:1", "lz4:-", "brg:dflt", "brt:5"] {
+        let words = ["lorem ", "ipsum ", "dolor ", "sit ", "amet ", "consectetur ", "adipiscing ", "elit ", "sed ", "do "];
+        let mut text = Vec::with_capacity(300_000);
+        while text.len() < 300_000 { text.extend_from_slice(r.pick(&words[..]).as_bytes()); if r.chance(1, 9) { text.extend_from_slice(format!("{} ", r.next()).as_bytes()); } }
+        for p in [r.bytes(140_000), r.bytes(300_000), text, r.bytes((1 << 20) - 64)] {
+            out.stat("payload_large");
+            one(&mut out, &["crt", a, &hx(&p)]);
+        }
+    }
     if cfg.tier == Tier::Thorough {
         for a in &all {
             let p = vec![0x5au8; 1 << 20];
